@@ -3,6 +3,7 @@ package engine
 import (
 	"crypto/sha256"
 	"fmt"
+	"github.com/nspcc-dev/neo-go/pkg/compiler"
 	repocommon "github.com/nspcc-dev/neofs-contract/common"
 	"sort"
 	"strings"
@@ -19,6 +20,21 @@ import (
 // modify state; verify methods accept only Alphabet multi-signatures. One grid per committee
 // size: (method row) x (signer set), every case from one prepared base state that holds all
 // eleven contracts.
+
+const subFwdSrc = `package subfwd
+
+import (
+	"github.com/nspcc-dev/neo-go/pkg/interop"
+	"github.com/nspcc-dev/neo-go/pkg/interop/contract"
+	"github.com/nspcc-dev/neo-go/pkg/interop/runtime"
+)
+
+func NewEpoch(e int) {}
+
+func Subscribe(netmap interop.Hash160) {
+	contract.Call(netmap, "subscribeForNewEpoch", contract.All, runtime.GetExecutingScriptHash())
+}
+`
 
 type authRow struct {
 	Contract string
@@ -90,6 +106,8 @@ func (d *AuthGrid) Build() *World {
 	pc := compiledFor("processing")
 	nf := w.Deploy("neofs", compiledFor("neofs"), []any{false, w.PredictHash(pc), ks, []any{[]byte("InnerRingCandidateFee"), candFee, []byte("WithdrawFee"), int64(7)}})
 	w.Deploy("processing", pc, []any{nf.Hash})
+	// a contract anybody can deploy that asks Netmap to subscribe it (an Alphabet-only request forwarded by its beneficiary)
+	w.Deploy("subfwd", CompileSource("subfwd", subFwdSrc, &compiler.Options{Name: "subfwd", NoEventsCheck: true, NoPermissionsCheck: true, Permissions: WildPermissions()}), nil)
 	// ---- a state in which every method has a succeeding argument vector ----
 	rm := w.E.NativeHash(w.T, nativenames.Designation)
 	w.Invoke(rm, cm, "designateAsRole", int64(16), ks) // Inner Ring / NeoFSAlphabet role: the committee keys
@@ -511,6 +529,7 @@ func authTable() []authRow {
 		{"netmap", "setConfig", func(d *AuthGrid, w *World) []any { return []any{[]byte("id"), []byte("k"), []byte("v")} }, al, ""},
 		{"netmap", "subscribeForNewEpoch", func(d *AuthGrid, w *World) []any { return []any{w.Contracts["reputation"].Hash} }, nil, ""}, // no newEpoch method there: always refused
 		{"netmap", "subscribeForNewEpoch", func(d *AuthGrid, w *World) []any { return []any{w.Contracts["balance"].Hash} }, al, ""},     // already subscribed: succeeds as a no-op
+		{"subfwd", "subscribe", func(d *AuthGrid, w *World) []any { return []any{w.Contracts["netmap"].Hash} }, al, ""},                 // subscribeForNewEpoch(caller) called by the subscriber itself
 		{"netmap", "updateSnapshotCount", func(d *AuthGrid, w *World) []any { return []any{int64(5)} }, al, ""},
 		{"netmap", "lastEpochBlock", none, k("any"), "safe"},
 		{"netmap", "update", self("netmap"), cm, "update"},
